@@ -7,7 +7,7 @@ import copy
 import itertools
 
 from ..editmachine import FST
-from ..oracle import S
+from ..oracle import S, S0
 from ..runner import Skip, Violation, fst_site
 
 ID = 'C09'
@@ -53,7 +53,11 @@ SLOTS = tuple(
      'try: pass\nexcept SLOT: pass', 'type X = SLOT', 'def f[T: SLOT](): pass', 'x = a[SLOT][b]', 'x = (a, SLOT)[0]', 'x = a.b(SLOT).c',
      'match a:\n case SLOT: pass', 'match a:\n case [SLOT, b]: pass', 'match a:\n case {1: SLOT}: pass', 'match a:\n case C(SLOT): pass',
      'match a:\n case C(k=SLOT): pass', 'match a:\n case SLOT | b: pass', 'match a:\n case b | SLOT: pass', 'match a:\n case SLOT as y: pass',
-     'match a:\n case (SLOT): pass', 'match a:\n case [*_, SLOT]: pass', 'match a:\n case SLOT, b: pass'])
+     'match a:\n case (SLOT): pass', 'match a:\n case [*_, SLOT]: pass', 'match a:\n case SLOT, b: pass',
+     'async with SLOT: pass', 'async with SLOT as y: pass', 'async with a, SLOT: pass', 'async with a as SLOT: pass', 'async for SLOT in a: pass',
+     'async for i in SLOT: pass', 'x = [i async for i in SLOT]', 'x = [i async for SLOT in a]', 'async def f(a=SLOT): pass', 'async def f() -> SLOT: pass',
+     'x = not SLOT', 'x = a and SLOT', 'x = SLOT or b', 'x = SLOT < b', 'x = a < SLOT < c', 'x = a is not SLOT', 'x = SLOT in b', 'global_ = SLOT; y = 1',
+     'if a: pass\nelif SLOT: pass', 'x = a[SLOT::c]', 'x = {**a, SLOT: v}', 'print(SLOT, *a)', 'print(*a, SLOT)', 'f(k=v, *SLOT)'])
 
 EXPR_CHILDREN = ('x', '1', '-1', '1j', '1.5', "'s'", "b'b'", 'None', '...', 'a.b', 'a[b]', 'a[b:c]', 'f()', 'f(a, k=v)',
                  'a + b', 'a - b', 'a * b', 'a / b', 'a // b', 'a % b', 'a ** b', 'a @ b', 'a << b', 'a >> b', 'a | b', 'a & b', 'a ^ b',
@@ -82,7 +86,7 @@ def params(tier):
 
 
 def exhaustive(tier):
-    return tier == 'thorough'
+    return True
 
 
 def floors(tier):
@@ -104,8 +108,6 @@ def enumerate_cases(tier, shard, nshards, seed):
 
                 base = cl == 'bare' and pl == 'line' and pars == 'auto'
 
-                if tier == 'quick' and not base and (k * 2654435761 + seed * 40503) % 2:
-                    continue
 
                 yield {'slot': si, 'child': ci, 'cl': cl, 'pl': pl, 'form': form, 'pars': pars}
 
@@ -266,6 +268,19 @@ def execute(case, ctx):
         valid = S(ast.parse(unp)) == S(expected)
     except Exception:
         valid = False
+
+    if not valid and not child.startswith('*'):
+        # ast.unparse() is not the only judge (it writes 'with (a, b): pass' for a sole Tuple item, which is two items): the slot text with the
+        # parenthesised child substituted must parse to the model tree
+        try:
+            alt = ast.parse(slot.replace('SLOT', f'({child})'))
+            valid = S0(alt) == S0(expected)
+
+            if valid:
+                unp = slot.replace('SLOT', f'({child})')
+                ctx.count('pair_valid_by_parenthesised_substitution_only')
+        except SyntaxError:
+            valid = False
 
     if not valid:
         ctx.count('pair_invalid_by_cpython')
